@@ -309,6 +309,7 @@ def run(ctx):
     ctx.attempt(_beamops.interpolation_rule, ctx, _ElemLib(repo), "R9.13")
     ctx.attempt(load_family_rule, ctx)
     ctx.attempt(empty_selection_rule, ctx)
+    ctx.attempt(load_quadrature_rule, ctx)
     from .c08 import mesh_motion_rule as _mesh_motion_rule
 
     # loads are integrated on the boundary groups: after a motion / re-coordination their Jacobians are those of the new geometry
@@ -598,3 +599,41 @@ def empty_selection_rule(ctx):
             r.fail(fE.qualname, "empty-selection:elements", fE.file, fE.lineno, "_GroupElem.Get_Elements_Nodes", f"an empty node set selects {out.size} elements")
     except XRaise as e:
         r.fail(fE.qualname, "empty-selection:elements", fE.file, fE.lineno, "_GroupElem.Get_Elements_Nodes", f"an empty node set raises {e}")
+
+
+def load_quadrature_rule(ctx, rid="R9.17"):
+    """'... for intensities given as ... polynomial functions of position up to the quadrature order': the loads are
+    integrated with the MASS rule of the loaded element type; for every element type that rule integrates the polynomials
+    of its documented order exactly (resultant: density x partition of unity; moment: one degree more is the business of
+    the documented order itself).  Decided with the exact rule tables (same engine as C07), restricted to the rules the
+    load integrator selects."""
+    from ..gausslib import GaussLib
+    from ..elems import topology
+
+    repo = ctx.repo
+    gl = GaussLib(repo)
+    r = ctx.rule(rid, "the quadrature rule each element type uses for loads (MatrixType.mass) is exact to its documented order", min_instances=15)
+    fac = repo.method("EasyFEA.FEM._gauss.Gauss", "Gauss_factory")
+    for e in sorted(gl.et_members):
+        if e == "POINT":
+            continue
+        res = gl.factory(e, "mass")
+        if res[0] != "rule":
+            continue
+        shape, n = res[1], res[2]
+        rule = gl.rule(shape, n)
+        r.instance(fn=fac.qualname)
+        if rule is None:
+            r.fail(fac.qualname, f"load-rule:{e}", fac.file, fac.lineno, "Gauss_factory", f"{e}: the mass rule ({shape}, {n} points) raises")
+            continue
+        d, bad, err = rule.degree(8)
+        doc = gl.doc_orders(shape)
+        want = None
+        if doc is not None:
+            av, orders = doc
+            if n in av:
+                want = min(v[n] for v in orders.values())
+        if want is not None and d < want:
+            r.fail(f"{rule.func.qualname}[nPg={n}]", f"load-rule:{e}", rule.func.file, rule.func.lineno, f"Gauss.{rule.func.name}({n})", f"{e} loads are integrated with the {n}-point {shape} rule, documented exact to degree {want}, but monomial exponents {bad} are integrated with error {float(err):.3e} (exact only to degree {d}): the resultant / moment of a polynomial density of that degree is wrong")
+        else:
+            r.ok(f"{e}: mass rule {shape}/{n} exact to degree {d}" + (f" >= documented {want}" if want is not None else ""))
